@@ -2,24 +2,9 @@
 """Regenerate MANIFEST.json from the table below (run after adding a property module)."""
 import json, os
 V = os.path.dirname(os.path.dirname(os.path.abspath(__file__)))
-P = {
- 'C08': dict(
-    text='Every boolean array of length <= 12 (quick) / 16 (thorough) x every min_n_cycles is run through the real '
-         'check_min_burst_cycles and compared with a run-length reference, plus idempotence and mirror symmetry; '
-         'the space is the complete binary prefix tree, so the coverage statement is "no array up to the bound '
-         'violates the rule".',
-    note='numpy bool arrays, fresh copy per call; min_n_cycles in 0..len+1 plus two non-integers',
-    technique='explicit-state enumeration of the binary prefix tree on the real function vs reference model',
-    ref='DESIGN.md section 4 C08'),
- 'C02': dict(
-    text='Every signal in {-1,0,1}^10 (quick) / {-1,0,1}^12 and {-2..2}^8 (thorough) under a 5- or 9-tap band-pass, and every '
-         'word of the waveform alphabet, is run through the real find_extrema for all pad x boundary x first_extrema x '
-         'filter combinations and compared index-for-index with a reference half-wave model; complete enumeration gives '
-         'all tie / plateau / window-edge patterns that sampled signals miss.',
-    note='neurodsp filter_signal trusted; inputs with no crossing in one direction skipped (undefined by the property)',
-    technique='bounded-exhaustive enumeration of input signals on the real code vs reference model',
-    ref='DESIGN.md section 4 C02'),
-}
+import sys
+sys.path.insert(0, os.path.dirname(os.path.abspath(__file__)))
+from entries import P
 PENDING = {}
 props = [json.loads(l) for l in open(os.path.join(V, 'properties.jsonl'))]
 checks, na = [], []
@@ -34,7 +19,7 @@ for p in props:
             'evidence_file': '/verif/evidence/%s.json' % pid,
             'replay_cmd_template': './check %s --replay {path}' % pid,
             'engine': 'bcmc',
-            'level_claimed': {'category': 'model_checking', 'text': d['text'], 'design_ref': d['ref']},
+            'level_claimed': {'category': 'model_checking', 'text': d['text'], 'design_ref': 'DESIGN.md section 4 %s' % pid},
             'level_note': d['note'],
             'technique': d['technique'],
         })
